@@ -5337,6 +5337,7 @@ let cs_opposite = function
 type inchar =
 | Ch of n
 | Bad
+| Print of str
 
 type istream = { in_cur : inchar list; in_rest : inchar list list }
 
@@ -5583,22 +5584,52 @@ let seg =
 let cols cfg =
   cfg.c_cols
 
+(** val take_in_chunk : inchar list -> (inchar * inchar list) option **)
+
+let rec take_in_chunk = function
+| [] -> None
+| c :: t -> (match c with
+             | Print _ -> take_in_chunk t
+             | _ -> Some (c, t))
+
 (** val take_first : inchar list list -> (inchar * istream) option **)
 
 let rec take_first = function
 | [] -> None
 | ch :: rest' ->
-  (match ch with
-   | [] -> take_first rest'
-   | c :: t -> Some (c, { in_cur = t; in_rest = rest' }))
+  (match take_in_chunk ch with
+   | Some p -> let (c, t) = p in Some (c, { in_cur = t; in_rest = rest' })
+   | None -> take_first rest')
 
 (** val take_char :
     inchar list -> inchar list list -> (inchar * istream) option **)
 
 let take_char cur rest =
-  match cur with
-  | [] -> take_first rest
-  | c :: t -> Some (c, { in_cur = t; in_rest = rest })
+  match take_in_chunk cur with
+  | Some p -> let (c, t) = p in Some (c, { in_cur = t; in_rest = rest })
+  | None -> take_first rest
+
+(** val peek_first : inchar list list -> (str * istream) option **)
+
+let rec peek_first = function
+| [] -> None
+| l :: rest' ->
+  (match l with
+   | [] -> peek_first rest'
+   | i :: t ->
+     (match i with
+      | Print m0 -> Some (m0, { in_cur = t; in_rest = rest' })
+      | _ -> None))
+
+(** val peek_print : istream -> (str * istream) option **)
+
+let peek_print i =
+  match i.in_cur with
+  | [] -> peek_first i.in_rest
+  | i0 :: t ->
+    (match i0 with
+     | Print m0 -> Some (m0, { in_cur = t; in_rest = i.in_rest })
+     | _ -> None)
 
 (** val next_char : n e **)
 
@@ -5614,7 +5645,8 @@ let next_char s =
      | Bad ->
        (match set_inp i s with
         | EOk (_, s') -> EErr (EInvalidData, s')
-        | _ -> EPanic))
+        | _ -> EPanic)
+     | Print _ -> EPanic)
   | None -> EErr (EHangup, s)
 
 type ptimeout =
@@ -9063,6 +9095,42 @@ let incremental_search u cfg fuel =
            isearch_loop u cfg fuel (s.e_line.buf, s.e_line.pos) mark []
              (sub (hlen_e s) (S O)) Reverse true))
 
+(** val ends_with_lf_str : str -> bool **)
+
+let ends_with_lf_str =
+  ends_with_lf
+
+(** val external_print : uData -> config -> str -> unit e **)
+
+let external_print u cfg m0 =
+  ebind eget (fun s ->
+    ebind (write (clear_old_rows s.e_layout)) (fun _ ->
+      ebind
+        (let lay = s.e_layout in
+         set_layout { l_prompt_size = lay.l_prompt_size; l_default_prompt =
+           lay.l_default_prompt; l_cursor = { p_col = lay.l_cursor.p_col;
+           p_row = O }; l_end = { p_col = lay.l_end.p_col; p_row = O } })
+        (fun _ ->
+        ebind (write m0) (fun _ ->
+          ebind
+            (if ends_with_lf_str m0
+             then eret ()
+             else write ((Npos (XO (XI (XO XH)))) :: [])) (fun _ ->
+            refresh_line u cfg)))))
+
+(** val drain_prints : uData -> config -> nat -> unit e **)
+
+let rec drain_prints u cfg = function
+| O -> eret ()
+| S f ->
+  ebind eget (fun s ->
+    match peek_print s.e_inp with
+    | Some p ->
+      let (m0, i) = p in
+      ebind (set_inp i) (fun _ ->
+        ebind (external_print u cfg m0) (fun _ -> drain_prints u cfg f))
+    | None -> eret ())
+
 type outcome =
 | OLine of str
 | OEof
@@ -9078,37 +9146,41 @@ type outcome =
 let rec main_loop u cfg = function
 | O -> efuel
 | S f ->
-  ebind (next_cmd u cfg f false) (fun c0 ->
-    ebind
-      (if should_reset_kill_ring c0
-       then ebind eget (fun s -> set_kr (kr_reset s.e_kr))
-       else eret ()) (fun _ ->
-      ebind
-        (match c0 with
-         | CComplete ->
-           if cfg.c_has_helper then complete_line u cfg f else eret (Some c0)
-         | _ -> eret (Some c0)) (fun oc ->
-        match oc with
-        | Some c1 ->
+  ebind eget (fun s00 ->
+    ebind (drain_prints u cfg (S (stream_size s00.e_inp))) (fun _ ->
+      ebind (next_cmd u cfg f false) (fun c0 ->
+        ebind
+          (if should_reset_kill_ring c0
+           then ebind eget (fun s -> set_kr (kr_reset s.e_kr))
+           else eret ()) (fun _ ->
           ebind
-            (match c1 with
-             | CReverseSearchHistory -> incremental_search u cfg f
-             | _ -> eret (Some c1)) (fun oc2 ->
-            match oc2 with
-            | Some c2 ->
-              (match c2 with
-               | CQuotedInsert ->
-                 ebind next_char (fun ch ->
-                   ebind (edit_insert u cfg ch (S O)) (fun _ ->
-                     main_loop u cfg f))
-               | CSuspend -> main_loop u cfg f
-               | _ ->
-                 ebind (execute u cfg c2) (fun st ->
-                   match st with
-                   | Proceed -> main_loop u cfg f
-                   | Submit -> eret ()))
-            | None -> main_loop u cfg f)
-        | None -> main_loop u cfg f)))
+            (match c0 with
+             | CComplete ->
+               if cfg.c_has_helper
+               then complete_line u cfg f
+               else eret (Some c0)
+             | _ -> eret (Some c0)) (fun oc ->
+            match oc with
+            | Some c1 ->
+              ebind
+                (match c1 with
+                 | CReverseSearchHistory -> incremental_search u cfg f
+                 | _ -> eret (Some c1)) (fun oc2 ->
+                match oc2 with
+                | Some c2 ->
+                  (match c2 with
+                   | CQuotedInsert ->
+                     ebind next_char (fun ch ->
+                       ebind (edit_insert u cfg ch (S O)) (fun _ ->
+                         main_loop u cfg f))
+                   | CSuspend -> main_loop u cfg f
+                   | _ ->
+                     ebind (execute u cfg c2) (fun st ->
+                       match st with
+                       | Proceed -> main_loop u cfg f
+                       | Submit -> eret ()))
+                | None -> main_loop u cfg f)
+            | None -> main_loop u cfg f)))))
 
 (** val initial_state :
     uData -> config -> str -> str list -> killring -> istream -> est **)
